@@ -53,6 +53,10 @@ KEYSETS = {
     "float": [0.5, 1.5],
     "tuples": [(1, 2.5), (1, 3.5), (2, 2.5)],
     "collide": [1, "1"],
+    # keys whose text differs only after the last dot / in the last element
+    "floats-one-int": [1.0, 1.25, 1.5],
+    "dotted": ["a.b", "a.c", "a"],
+    "tuple-floats": [(1, 2.5), (1, 2.75), (1, 2)],
 }
 KINDS = ["dict", "frame", "simulation"]
 CALLS_DIR = None  # set per run: marker files written by the cached function
@@ -472,7 +476,8 @@ def _key(k):
 
 def generate(tier):
     cases = []
-    combos = [("ints", "dict"), ("strs", "dict"), ("float", "dict"), ("tuples", "dict"), ("collide", "dict"), ("ints", "frame"), ("tuples", "simulation")]
+    combos = [("ints", "dict"), ("strs", "dict"), ("float", "dict"), ("tuples", "dict"), ("collide", "dict"), ("ints", "frame"), ("tuples", "simulation"),
+              ("floats-one-int", "dict"), ("dotted", "dict"), ("tuple-floats", "dict")]
     if tier == "thorough":
         combos += [("ints", "simulation"), ("strs", "frame"), ("tuples", "frame"), ("collide", "frame")]
     for ks, kind in combos:
@@ -496,7 +501,7 @@ def generate(tier):
     # operation histories on one directory in one process; every history ends with a run (the observation)
     runs = [o for o in HIST_OPS if o.startswith("run")]
     depth = 4 if tier == "quick" else 5
-    for kind, ks in (("dict", "ints"), ("frame", "strs"), ("simulation", "ints")):
+    for kind, ks in (("dict", "ints"), ("frame", "strs"), ("simulation", "ints"), ("dict", "floats-one-int"), ("frame", "dotted"), ("simulation", "tuple-floats")):
         for n in range(1, depth + 1):
             if kind == "simulation" and n > depth - 1:
                 continue
